@@ -136,7 +136,14 @@ def obligations(tier, rng):
     for m in [('and', GX, ('once_t', GX, 0, 1)), ('or', ('prev', X), ('not', ('prev', X))), ('and', ('and', P, Z), ('once', ('and', P, Z)))]:
         for mode in ('offline', 'online'):
             out.append(ob('C12', 'dt', 'dt/%s/dup/out=%s' % (mode, text(m)), defs=[['p', ('since', X, Y)]] if refsem.has(m, set()) or 'p' in variables(m) else [],
-                          main=m, N=N, mode=mode))
+                          main=m, N=N, mode=mode, sweep=30))
+    # the formula of a named sub-specification written out again inside a later assertion (same text, stateful operator on top); plateau
+    # data in the sweep: the operator's value stays the same over consecutive updates while its operand changes
+    GY0 = ('geq', Y, ('const', 0.0))
+    for d in [('historically', GX), ('once', GX), ('since', GX, GY0), ('once_t', GX, 0, 2)]:
+        for m in [('and', GY0, d), ('or', ('not', d), GY0)]:
+            for mode in ('online', 'offline'):
+                out.append(ob('C12', 'dt', 'dt/%s/dup-text/p=%s/out=%s' % (mode, text(d), text(m)), defs=[['p', d]], main=m, N=N, mode=mode, sweep=40))
     # traces shorter than a future bound: the operand's stored signal must stay one value per sample
     for d in [('geq', X, ('const', 3.0)), ('once_t', X, 0, 1)]:
         for m in [('eventually_t', P, 0, 5), ('always_t', P, 2, 5), ('until_t', P, Z, 0, 4), ('and', ('eventually_t', P, 1, 4), P)]:
